@@ -115,13 +115,17 @@ PROPS['C20'] = dict(
 PROPS['C01'] = dict(
     level='other',
     claim='agent scheduler: the per-node search, the multi-node placement, marking and unmarking, the grant operation (_try_allocation: occupancy invariant preserved, only free cells handed out, exactly the named cells marked, lfs/mem debited within what the node has) and the node iterator are verified for every node list and request; lemmas: a held cell is never offered again, a rotation is a permutation; the recursive sums are justified by induction lemmas',
-    note='application-supplied placements (td.slots branch of _schedule_incoming), resource_config.Node (application-level finder), ContinuousJsrun/NumaNode and the RM-side blocked/agent-node marking are not yet under contract here',
+    note='application-level finder (resource_config.py): Node.find_slot / allocate_slot (unchecked form) / deallocate_slot are verified for every node and request (a slot names the requested number of distinct cells that had room and books exactly those shares; giving back is exact; blocked cells are skipped; the node stays within 0..1 per cell and within its lfs / mem); NodeList: the collecting loop of find_slots never overbooks a node, every slot is given back to the node whose index it names (site obligation at deallocate_slot, roll-back and release_slots), NodeList._get_node; the composition over whole histories (occupation == sum of the shares held) is checked by bounded native histories only (labelled bounded). Not under contract: the checked form of allocate_slot (slots built by the application by hand), _assert_rr / verify (assumed not to touch occupations), NumaNode, ContinuousJsrun, the agent-side td.slots branch of _schedule_incoming (covered natively by sched-histories); one genuine defect found and repaired here (node looked up by position instead of index)',
+    bounded=[dict(name='app-placements', cmd=['harness/run_bounded.py', 'app-placements'], timeout=900)],
     assumptions=['A1', 'A2', 'A3', 'A4', 'A7', 'A8', 'A9', 'A11'],
     explanation='Inv_sched (distinct node indices, cells in {DOWN, FREE, BUSY}, lfs/mem >= 0) is preserved by the grant operation and by release; whole-view postconditions on _change_slot_states; property stated over operations (single-threaded scheduler loop)',
     clauses={'no core twice / GPU shares <= 1 / lfs, mem within node': 'P',
              'blocked (DOWN) cells never handed out': 'P',
              'every interleaving of grant / release operations (operation granularity)': 'P per operation + lemmas',
-             'application-supplied placement': 'not yet built',
+             'application-level finder: shares booked fit, exact give-back, blocked cells skipped (per operation)': 'P',
+             'application-level finder: slot given back to the node it names': 'P (site obligation)',
+             'application-level finder: occupation == sum of held shares over whole histories': 'B (app-placements)',
+             'placement attached by the application arriving at the agent (td.slots)': 'B (sched-histories, C04)',
              'agent / service nodes excluded (RM)': 'see C18',
              'NumaNode / ContinuousJsrun': 'N (not built)'})
 
